@@ -96,3 +96,14 @@ func (pc *PartitionContext) VerifRoot() *objects.Queue {
 func (pc *PartitionContext) VerifOutstandingRequests() []*objects.Allocation {
 	return pc.calculateOutstandingRequests()
 }
+
+// VerifMidCycleFn, when set, is called between the two halves of a scheduling cycle: after the application has made
+// an allocation, reservation or placeholder replacement and before the partition processes the result. The
+// verification harness uses it to deliver an RM request at exactly that point.
+var VerifMidCycleFn func(appID, allocationKey, nodeID string, resultType objects.AllocationResultType)
+
+func verifMidCycle(_ *PartitionContext, result *objects.AllocationResult) {
+	if f := VerifMidCycleFn; f != nil && result != nil && result.Request != nil {
+		f(result.Request.GetApplicationID(), result.Request.GetAllocationKey(), result.NodeID, result.ResultType)
+	}
+}
